@@ -403,8 +403,19 @@ def _worker(args):
         out = ctx.dump()
         out["error"] = None
     except Exception as e:  # noqa: BLE001
-        out = ctx.dump()
-        out["error"] = "%s: %s\n%s" % (type(e).__name__, e, traceback.format_exc())
+        v = as_violation(e, prop, "shard") if not isinstance(e, HarnessError) else None
+        if v is not None and not isinstance(e, PropertyViolation):
+            # the library raised on an input the shard feeds it outside a generated case
+            ctx.fail(v, {"shard": desc, "traceback": traceback.format_exc()[-1500:]})
+            out = ctx.dump()
+            out["error"] = None
+        elif isinstance(e, PropertyViolation):
+            ctx.fail(e, {"shard": desc})
+            out = ctx.dump()
+            out["error"] = None
+        else:
+            out = ctx.dump()
+            out["error"] = "%s: %s\n%s" % (type(e).__name__, e, traceback.format_exc())
     out["wall_s"] = time.monotonic() - t0
     out["desc"] = desc
     return out
